@@ -51,6 +51,8 @@ def run(rep, idx, tier):
     is_available(rep, idx)
     rep.require("C18.8", 1)
     search_domain(rep, idx)
+    rep.require("C18.9", 2)
+    index_coherence(rep, idx)
 
 
 def ns_calls(c, attr):
@@ -659,3 +661,128 @@ def name_ordering(rep, idx):
                     else:
                         rep.unk("C18.7", f.site, what, f"key `{ast.unparse(key)[:50]}` is not a one-argument lambda; whether it is type-safe is not decided")
     rep.ok("C18.7", "-", "sorting of names was enumerated", f"{n} site(s)", nontrivial=False)
+
+
+_MUTATORS = ("update", "add", "append", "extend", "insert", "setdefault", "pop", "popitem", "clear", "remove", "discard", "sort",
+             "difference_update", "intersection_update", "symmetric_difference_update", "appendleft")
+
+
+def _attr_writes(fn, recv="self"):
+    """{attribute: first line} of the receiver's attributes a method rebinds or mutates in place."""
+    out = {}
+
+    def root(e):
+        while isinstance(e, (ast.Subscript,)):
+            e = e.value
+        if isinstance(e, ast.Attribute) and isinstance(e.value, ast.Name) and e.value.id == recv:
+            return e.attr
+        return None
+    for n in ast.walk(fn):
+        tgts = []
+        if isinstance(n, ast.Assign):
+            tgts = n.targets
+        elif isinstance(n, (ast.AugAssign, ast.AnnAssign)):
+            tgts = [n.target]
+        elif isinstance(n, ast.Delete):
+            tgts = n.targets
+        elif isinstance(n, ast.Call) and isinstance(n.func, ast.Attribute) and n.func.attr in _MUTATORS:
+            tgts = [n.func.value]
+        for t in tgts:
+            for x in (t.elts if isinstance(t, (ast.Tuple, ast.List)) else [t]):
+                a = root(x)
+                if a is not None:
+                    out.setdefault(a, n.lineno)
+    return out
+
+
+def index_coherence(rep, idx):
+    """is_available() decides from the namespace's stored state.  (a) When it reads more than one attribute -- the names and an
+    index over them that narrows the search -- every method that adds names must maintain all of them: a writer that updates
+    the names but not the index (while a sibling writer maintains both) leaves names the search never visits.  (b) The
+    collection the search iterates contains every assigned name unconditionally; a domain chosen by a condition or filtered is
+    only complete if the condition is implied by the index, which is not re-derived here."""
+    cls = idx.find_class("_Namespace")
+    fi = cls.method("is_available")
+    closure, todo = [], [fi]
+    while todo:
+        g = todo.pop()
+        if g in closure:
+            continue
+        closure.append(g)
+        for n in ast.walk(g.node):
+            if isinstance(n, ast.Call) and isinstance(n.func, ast.Attribute) and isinstance(n.func.value, ast.Name) and n.func.value.id == "self":
+                h = cls.method(n.func.attr)
+                if h is not None and h.name not in ("assign", "extend"):
+                    todo.append(h)
+    reads = set()
+    for g in closure:
+        for n in ast.walk(g.node):
+            if isinstance(n, ast.Attribute) and isinstance(n.value, ast.Name) and n.value.id == "self" and isinstance(n.ctx, ast.Load) and \
+                    cls.method(n.attr) is None:
+                reads.add(n.attr)
+    writers = {}
+    for fs in cls.methods.values():
+        for f in fs:
+            if f.name == "__init__" or f in closure:
+                continue
+            w = {a: ln for a, ln in _attr_writes(f.node).items() if a in reads}
+            if w:
+                writers[f] = w
+    what = "every method that adds names maintains all the state is_available() searches"
+    union = set()
+    for w in writers.values():
+        union |= set(w)
+    incoherent = [(f, sorted(union - set(w))) for f, w in writers.items() if union - set(w)]
+    if incoherent:
+        for f, missing in incoherent:
+            full = next((g for g, w in writers.items() if set(w) == union), None)
+            rep.bad("C18.9", f.site, what,
+                    f"{f.qual} updates {sorted('self.' + a for a in writers[f])} but not {['self.' + a for a in missing]}, which is_available() reads"
+                    + (f" and {full.qual} maintains" if full is not None else "") + ": names that enter through this method are not "
+                    "found by the search, so an equal name, a prefix or an extension of one of them is accepted",
+                    line=min(writers[f].values()))
+    else:
+        rep.ok("C18.9", fi.site, what, f"is_available() reads {sorted(reads)}; writers: " +
+               ", ".join(f"{f.qual} -> {sorted(w)}" for f, w in sorted(writers.items(), key=lambda kv: kv[0].qual)))
+    # (b) the iterated domain
+    what = "the conflict search iterates every assigned name"
+    found = False
+    for g in closure:
+        binds = {}
+        for n in ast.walk(g.node):
+            if isinstance(n, ast.Assign) and len(n.targets) == 1 and isinstance(n.targets[0], ast.Name):
+                binds.setdefault(n.targets[0].id, []).append(n.value)
+        for loop in [n for n in ast.walk(g.node) if isinstance(n, (ast.For, ast.comprehension))]:
+            seen, narrowed, uses = set(), [], False
+            stack = [loop.iter]
+            while stack:
+                e = stack.pop()
+                for x in ast.walk(e):
+                    if isinstance(x, ast.Attribute) and isinstance(x.value, ast.Name) and x.value.id == "self" and x.attr in reads and \
+                            cls.method(x.attr) is None:
+                        uses = True
+                    if isinstance(x, ast.IfExp):
+                        narrowed.append(f"a choice `{ast.unparse(x)[:70]}`")
+                    if isinstance(x, (ast.ListComp, ast.SetComp, ast.GeneratorExp, ast.DictComp)) and any(c_.ifs for c_ in x.generators):
+                        narrowed.append(f"a filter `{ast.unparse(x)[:70]}`")
+                    if isinstance(x, ast.Call) and isinstance(x.func, ast.Name) and x.func.id in ("filter", "islice", "takewhile", "dropwhile"):
+                        narrowed.append(f"`{ast.unparse(x)[:70]}`")
+                    if isinstance(x, ast.Subscript) and isinstance(x.slice, ast.Slice):
+                        narrowed.append(f"a slice `{ast.unparse(x)[:70]}`")
+                    if isinstance(x, ast.Name) and isinstance(x.ctx, ast.Load) and x.id in binds and x.id not in seen:
+                        seen.add(x.id)
+                        if len(binds[x.id]) > 1:
+                            narrowed.append(f"`{x.id}`, which is bound in {len(binds[x.id])} places")
+                        stack.extend(binds[x.id])
+            if not uses:
+                continue
+            found = True
+            # slices of the *queried* tuple (names[i + 1:]) are not a narrowing of the assigned names
+            narrowed = [t for t in narrowed if not (t.startswith("a slice") and "self." not in t)]
+            if narrowed:
+                rep.unk("C18.9", g.site, what, f"the collection iterated at line {loop.iter.lineno} is narrowed by {narrowed[0]}; whether every "
+                        "conflicting assigned name is still among the candidates is not decided")
+            else:
+                rep.ok("C18.9", g.site, what, f"`{ast.unparse(loop.iter)[:80]}` contains the stored names unconditionally")
+    if not found:
+        rep.unk("C18.9", fi.site, what, "no loop over the stored names was found in is_available() or its helpers")
